@@ -22,6 +22,20 @@ def hyps_of(path, obl):
 
 
 def discharge(path, obl, timeout_ms=10000, use_cvc5=True, extra=()):
+    v = _discharge(path, obl, obl.goal, timeout_ms, use_cvc5, extra)
+    if v.status != "discharged" and z3.is_and(obl.goal) and len(obl.goal.children()) > 1:
+        # a conjunction the solver cannot do at once: every conjunct separately (sound: all must be unsat)
+        total = v.secs
+        for g in obl.goal.children():
+            w = _discharge(path, obl, g, timeout_ms, use_cvc5, extra)
+            total += w.secs
+            if w.status != "discharged":
+                return Verdict(v.status, v.backend, total, v.detail + "; conjunct failed: " + w.detail)
+        return Verdict("discharged", "z3(split)", total)
+    return v
+
+
+def _discharge(path, obl, goal, timeout_ms, use_cvc5, extra):
     hyps = hyps_of(path, obl) + list(extra)
     s = z3.Solver()
     s.set("timeout", timeout_ms)
@@ -29,7 +43,7 @@ def discharge(path, obl, timeout_ms=10000, use_cvc5=True, extra=()):
         s.add(a)
     for h in hyps:
         s.add(h)
-    s.add(Not(obl.goal))
+    s.add(Not(goal))
     t = time.time()
     r = s.check()
     dt = time.time() - t
